@@ -1,0 +1,237 @@
+//go:build verif
+
+package ics20
+
+// C04, approval side of the ICS-20 precompile (approve.go, approve_common.go, types.go). Comment-only; compiled only with -tags
+// verif. Lib specs: /verif/specs/c04/*.spec; 65_allocations.spec adds g_ta, the stored TransferAuthorization of each grant.
+
+/*@
+// TransferAuthorization.MsgTypeURL() and ics20.TransferMsgURL are both sdk.MsgTypeURL(&transfertypes.MsgTransfer{})
+axiom const_auth_url: const_auth_url(TransferTag()) == glob_ics20_TransferMsgURL
+specfunc MaxU256i() int = 115792089237316195423570985008687907853269984665640564039457584007913129639935
+
+// ------------------------------------------------------------------ argument decoding
+func checkRevokeArgs
+    ensures err_iff: (result.1 == nil) == (len(args) == 1 && isdyn(args[0], Address) && dyn(args[0], Address) != zero_EvmAddr)
+    ensures decoded: result.1 == nil ==> result.0 == dyn(args[0], Address)
+
+func checkAllowanceArgs
+    let ok = len(args) == 5 && isdyn(args[0], Address) && dyn(args[0], Address) != zero_EvmAddr && isdyn(args[1], string) && isdyn(args[2], string) && isdyn(args[3], string)
+             && isdyn(args[4], *BigInt) && dyn(args[4], *BigInt) != nil
+    ensures err_iff: (result.5 == nil) == ok
+    ensures decoded: result.5 == nil ==> result.0 == dyn(args[0], Address) && result.1 == dyn(args[1], string) && result.2 == dyn(args[2], string) && result.3 == dyn(args[3], string)
+            && result.4 == dyn(args[4], *BigInt)
+
+// the allocation list comes out of abi.Arguments.Copy (reflection, left opaque as in NewMsgTransfer): only the grantee is
+// characterised. NOTE: unlike every other decoder the zero address is not refused as grantee here.
+func checkTransferAuthzArgs
+    requires abi_method: method != nil && len(method.Inputs) == 2
+    loop 1 invariant idx: 0 <= #i && #i <= len(input.Allocations) && len(allocations) == len(input.Allocations)
+    loop 2 invariant idx: 0 <= #i && #i <= len(a.SpendLimit) && len(spendLimit) == len(a.SpendLimit)
+    rawslice spendLimit
+    ensures grantee: result.2 == nil ==> len(args) == 2 && isdyn(args[0], Address) && result.0 == dyn(args[0], Address)
+    allow frame
+
+func NewTransferAuthorization
+    requires abi_method: method != nil && len(method.Inputs) == 2
+    ensures grantee: result.2 == nil ==> len(args) == 2 && isdyn(args[0], Address) && result.0 == dyn(args[0], Address) && result.1 != nil && fresh(result.1)
+            && len(result.1.Allocations) > 0
+    ensures refused: result.2 != nil ==> result.1 == nil
+
+// event view of the allocations: no effect on any state
+func convertToAllocation
+    loop 1 invariant idx: 0 <= #i && #i <= len(allocs) && len(allocations) == len(allocs)
+    loop 2 invariant idx: 0 <= #i && #i <= coins_len(allocation.SpendLimit) && len(spendLimit) == coins_len(allocation.SpendLimit)
+    ensures len(result) == len(allocs)
+
+// C04: the allocation that an allowance change edits is the FIRST one whose source port AND source channel both equal the
+// requested ones, and it must already carry the requested denomination; no such allocation -> error
+func checkAllocationExists
+    loop 1 invariant idx: 0 <= #i && #i <= len(allocations)
+    loop 1 invariant none: forall j int :: 0 <= j && j < #i ==> !AllocFor(allocations[j], sourcePort, sourceChannel)
+    ensures found: err == nil ==> 0 <= allocationIdx && allocationIdx < len(allocations) && AllocFor(allocations[allocationIdx], sourcePort, sourceChannel)
+            && (forall j int :: 0 <= j && j < allocationIdx ==> !AllocFor(allocations[j], sourcePort, sourceChannel))
+            && allocations[allocationIdx].SpendLimit[denom] != 0 && spendLimit.Denom == denom && spendLimit.Amount == allocations[allocationIdx].SpendLimit[denom]
+    ensures no_allocation: (forall j int :: 0 <= j && j < len(allocations) ==> !AllocFor(allocations[j], sourcePort, sourceChannel)) ==> err != nil
+    ensures no_denom: (forall i int :: 0 <= i && i < len(allocations) && AllocFor(allocations[i], sourcePort, sourceChannel) && (forall j int :: 0 <= j && j < i ==> !AllocFor(allocations[j], sourcePort, sourceChannel))
+            ==> allocations[i].SpendLimit[denom] == 0) ==> err != nil
+
+// ------------------------------------------------------------------ the common implementations
+// C04 approve: the grant written is (origin -> grantee) for MsgTransfer and stores exactly the given authorization; every
+// allocation names an existing channel
+func Approve
+    requires wf: transferAuthz != nil && ctx_height(ctx) >= 0 && len(event.Inputs) == 3 && stateDB != nil
+    let key = gkey(addr_bytes(grantee), addr_bytes(origin), glob_ics20_TransferMsgURL)
+    modifies g_kind, g_exp, g_limited, g_limit, g_ta
+    call SaveGrant requires who: gte == addr_bytes(grantee) && gtr == addr_bytes(origin) && isdyn(authorization, *TA) && dyn(authorization, *TA) == transferAuthz && exp != nil
+    call SaveGrant requires untouched: g_kind == old(g_kind) && g_exp == old(g_exp) && g_limited == old(g_limited) && g_limit == old(g_limit) && g_ta == old(g_ta) && *transferAuthz == old(*transferAuthz)
+    loop 1 invariant idx: 0 <= #i && #i <= len(transferAuthz.Allocations)
+    loop 1 invariant channels: forall j int :: 0 <= j && j < #i ==> has_channel(channelKeeper, ctx, transferAuthz.Allocations[j].SourcePort, transferAuthz.Allocations[j].SourceChannel)
+    ensures granted: result == nil ==> g_kind == upd(old(g_kind), key, TransferTag()) && g_ta == upd(old(g_ta), key, old(*transferAuthz)) && g_limited == old(g_limited) && g_limit == old(g_limit)
+            && g_exp[key] != nil && (forall k GKey :: k != key ==> g_exp[k] == old(g_exp)[k])
+    ensures channels: result == nil ==> (forall j int :: 0 <= j && j < len(old(transferAuthz.Allocations)) ==> has_channel(channelKeeper, ctx, old(transferAuthz.Allocations)[j].SourcePort, old(transferAuthz.Allocations)[j].SourceChannel))
+    ensures no_channel: (exists j int :: 0 <= j && j < len(old(transferAuthz.Allocations)) && !has_channel(channelKeeper, ctx, old(transferAuthz.Allocations)[j].SourcePort, old(transferAuthz.Allocations)[j].SourceChannel))
+            ==> result != nil && g_kind == old(g_kind) && g_exp == old(g_exp) && g_ta == old(g_ta) && g_limited == old(g_limited) && g_limit == old(g_limit)
+
+// C04 revoke: only a live TransferAuthorization grant (origin -> grantee) is deleted, nothing else changes
+func Revoke
+    requires wf: ctx_height(ctx) >= 0 && len(event.Inputs) == 3 && stateDB != nil
+    let key = gkey(addr_bytes(grantee), addr_bytes(origin), glob_ics20_TransferMsgURL)
+    modifies g_kind
+    call DeleteGrant requires who: gte == addr_bytes(grantee) && gtr == addr_bytes(origin) && url == glob_ics20_TransferMsgURL && g_kind == old(g_kind)
+    ensures revoked: result == nil ==> old(GLive(g_kind, g_exp, key, ctx)) && old(g_kind)[key] == TransferTag() && g_kind == upd(old(g_kind), key, 0)
+    ensures no_grant: !old(GLive(g_kind, g_exp, key, ctx)) || old(g_kind)[key] != TransferTag() ==> result != nil && g_kind == old(g_kind)
+
+// C04 increaseAllowance: needs a live TransferAuthorization grant (granter -> grantee); exactly the first allocation for
+// (sourcePort, sourceChannel) is edited, and in it only the limit of `denom`, which grows by exactly `amount`; every other
+// allocation, denomination, port/channel/allow list, grant kind and expiration is unchanged; no allocation / denomination -> error,
+// nothing changed
+func IncreaseAllowance
+    requires wf: amount != nil && 0 <= *amount && ctx_height(ctx) >= 0 && len(event.Inputs) == 3 && stateDB != nil
+    let key = gkey(addr_bytes(grantee), addr_bytes(granter), glob_ics20_TransferMsgURL)
+    let A = old(g_ta)[key].Allocations
+    let N = g_ta[key].Allocations
+    let amt = old(*amount)
+    modifies g_kind, g_exp, g_limited, g_limit, g_ta
+    call SaveGrant requires who: gte == addr_bytes(grantee) && gtr == addr_bytes(granter) && exp == old(g_exp)[key] && isdyn(authorization, *TA) && dyn(authorization, *TA) == dyn(ret(CheckAuthzExists, 1, 0), *TA)
+    call SaveGrant requires untouched: g_kind == old(g_kind) && g_exp == old(g_exp) && g_limited == old(g_limited) && g_limit == old(g_limit) && g_ta == old(g_ta)
+    ensures needs_grant: result == nil ==> old(GLive(g_kind, g_exp, key, ctx)) && old(g_kind)[key] == TransferTag()
+    ensures no_grant: !old(GLive(g_kind, g_exp, key, ctx)) || old(g_kind)[key] != TransferTag() ==> result != nil && g_kind == old(g_kind) && g_exp == old(g_exp) && g_ta == old(g_ta) && g_limited == old(g_limited) && g_limit == old(g_limit)
+    ensures no_allocation: (forall j int :: 0 <= j && j < len(A) ==> !AllocFor(A[j], sourcePort, sourceChannel)) ==> result != nil && g_kind == old(g_kind) && g_exp == old(g_exp) && g_ta == old(g_ta)
+            && g_limited == old(g_limited) && g_limit == old(g_limit)
+    ensures no_denom: (forall i int :: 0 <= i && i < len(A) && AllocFor(A[i], sourcePort, sourceChannel) && (forall j int :: 0 <= j && j < i ==> !AllocFor(A[j], sourcePort, sourceChannel)) ==> A[i].SpendLimit[denom] == 0)
+            ==> result != nil && g_kind == old(g_kind) && g_exp == old(g_exp) && g_ta == old(g_ta) && g_limited == old(g_limited) && g_limit == old(g_limit)
+    ensures others: result == nil ==> g_kind == old(g_kind) && g_exp == old(g_exp) && g_limited == old(g_limited) && g_limit == old(g_limit) && (forall k GKey :: k != key ==> g_ta[k] == old(g_ta)[k])
+    ensures shape: result == nil ==> len(N) == len(A) && (forall i int :: 0 <= i && i < len(A) ==> N[i].SourcePort == A[i].SourcePort && N[i].SourceChannel == A[i].SourceChannel && N[i].AllowList == A[i].AllowList)
+    ensures other_allocations: result == nil ==> (forall i int :: 0 <= i && i < len(A) && !(AllocFor(A[i], sourcePort, sourceChannel) && (forall j int :: 0 <= j && j < i ==> !AllocFor(A[j], sourcePort, sourceChannel)))
+            ==> N[i].SpendLimit == A[i].SpendLimit)
+    ensures raised: result == nil ==> (forall i int :: 0 <= i && i < len(A) && AllocFor(A[i], sourcePort, sourceChannel) && (forall j int :: 0 <= j && j < i ==> !AllocFor(A[j], sourcePort, sourceChannel))
+            ==> A[i].SpendLimit[denom] != 0 && (forall d string :: N[i].SpendLimit[d] == A[i].SpendLimit[d] + ite(d == denom, amt, 0)))
+
+// C04 decreaseAllowance: as increaseAllowance with limit - amount; amount > limit -> error, nothing changed; a decrease by exactly
+// the limit removes the denomination from the spend limit (nothing of it is spendable any more)
+func DecreaseAllowance
+    requires wf: amount != nil && 0 <= *amount && ctx_height(ctx) >= 0 && len(event.Inputs) == 3 && stateDB != nil
+    let key = gkey(addr_bytes(grantee), addr_bytes(granter), glob_ics20_TransferMsgURL)
+    let A = old(g_ta)[key].Allocations
+    let N = g_ta[key].Allocations
+    let amt = old(*amount)
+    let SL0 = transferAuthz.Allocations[allocationIdx].SpendLimit
+    modifies g_kind, g_exp, g_limited, g_limit, g_ta
+    call SaveGrant requires who: gte == addr_bytes(grantee) && gtr == addr_bytes(granter) && exp == old(g_exp)[key] && isdyn(authorization, *TA) && dyn(authorization, *TA) == dyn(ret(CheckAuthzExists, 1, 0), *TA)
+    call SaveGrant requires untouched: g_kind == old(g_kind) && g_exp == old(g_exp) && g_limited == old(g_limited) && g_limit == old(g_limit) && g_ta == old(g_ta)
+    // the only refusals made here (before SaveGrant): no live grant, or the amount exceeds the limit (strictly)
+    call Errorf requires justified: ret(CheckAuthzExists, 1, 2) != nil || spendLimit.Amount < expense
+    loop 1 invariant idx: 0 <= #i && #i <= coins_len(SL0)
+    loop 1 invariant rest: allocation.SourcePort == transferAuthz.Allocations[allocationIdx].SourcePort && allocation.SourceChannel == transferAuthz.Allocations[allocationIdx].SourceChannel
+            && allocation.AllowList == transferAuthz.Allocations[allocationIdx].AllowList
+    loop 1 invariant limit: forall d string :: allocation.SpendLimit[d] == SL0[d] - ite(d == denom && coins_prefix(SL0, #i)[denom] != 0, expense, 0)
+    loop 1 head use CoinsPrefixAbsent(SL0, #i, denom)
+    ensures needs_grant: result == nil ==> old(GLive(g_kind, g_exp, key, ctx)) && old(g_kind)[key] == TransferTag()
+    ensures no_grant: !old(GLive(g_kind, g_exp, key, ctx)) || old(g_kind)[key] != TransferTag() ==> result != nil && g_kind == old(g_kind) && g_exp == old(g_exp) && g_ta == old(g_ta) && g_limited == old(g_limited) && g_limit == old(g_limit)
+    ensures no_allocation: (forall j int :: 0 <= j && j < len(A) ==> !AllocFor(A[j], sourcePort, sourceChannel)) ==> result != nil && g_kind == old(g_kind) && g_exp == old(g_exp) && g_ta == old(g_ta)
+            && g_limited == old(g_limited) && g_limit == old(g_limit)
+    ensures no_denom: (forall i int :: 0 <= i && i < len(A) && AllocFor(A[i], sourcePort, sourceChannel) && (forall j int :: 0 <= j && j < i ==> !AllocFor(A[j], sourcePort, sourceChannel)) ==> A[i].SpendLimit[denom] == 0)
+            ==> result != nil && g_kind == old(g_kind) && g_exp == old(g_exp) && g_ta == old(g_ta) && g_limited == old(g_limited) && g_limit == old(g_limit)
+    ensures too_big: (forall i int :: 0 <= i && i < len(A) && AllocFor(A[i], sourcePort, sourceChannel) && (forall j int :: 0 <= j && j < i ==> !AllocFor(A[j], sourcePort, sourceChannel)) ==> A[i].SpendLimit[denom] < amt)
+            ==> result != nil && g_kind == old(g_kind) && g_exp == old(g_exp) && g_ta == old(g_ta) && g_limited == old(g_limited) && g_limit == old(g_limit)
+    ensures others: result == nil ==> g_kind == old(g_kind) && g_exp == old(g_exp) && g_limited == old(g_limited) && g_limit == old(g_limit) && (forall k GKey :: k != key ==> g_ta[k] == old(g_ta)[k])
+    ensures shape: result == nil ==> len(N) == len(A) && (forall i int :: 0 <= i && i < len(A) ==> N[i].SourcePort == A[i].SourcePort && N[i].SourceChannel == A[i].SourceChannel && N[i].AllowList == A[i].AllowList)
+    ensures other_allocations: result == nil ==> (forall i int :: 0 <= i && i < len(A) && !(AllocFor(A[i], sourcePort, sourceChannel) && (forall j int :: 0 <= j && j < i ==> !AllocFor(A[j], sourcePort, sourceChannel)))
+            ==> N[i].SpendLimit == A[i].SpendLimit)
+    ensures lowered: result == nil ==> (forall i int :: 0 <= i && i < len(A) && AllocFor(A[i], sourcePort, sourceChannel) && (forall j int :: 0 <= j && j < i ==> !AllocFor(A[j], sourcePort, sourceChannel))
+            ==> amt <= A[i].SpendLimit[denom] && (forall d string :: N[i].SpendLimit[d] == A[i].SpendLimit[d] - ite(d == denom, amt, 0)))
+    // a decrease by exactly the remaining limit: the denomination is gone from the spend limit
+    ensures exact: result == nil ==> (forall i int :: 0 <= i && i < len(A) && AllocFor(A[i], sourcePort, sourceChannel) && (forall j int :: 0 <= j && j < i ==> !AllocFor(A[j], sourcePort, sourceChannel))
+            && amt == A[i].SpendLimit[denom] ==> N[i].SpendLimit[denom] == 0)
+
+// ------------------------------------------------------------------ the four entry points of the precompile
+// Preconditions are facts of the only call site (Precompile.Run): method is non-nil and is the ABI method of the call, args come from
+// abi.Arguments.Unpack (a uint256 is a non-negative *big.Int), the StateDB is non-nil, the ABI is the embedded abi.json. In each of
+// them the granter is the transaction signer (origin) and the grantee the decoded args[0].
+
+func (Precompile).Approve
+    requires wf: method != nil && len(method.Inputs) == 2 && ctx_height(ctx) >= 0 && len(p.ABI.Events["IBCTransferAuthorization"].Inputs) == 3 && stateDB != nil
+    let key = gkey(addr_bytes(dyn(args[0], Address)), addr_bytes(origin), glob_ics20_TransferMsgURL)
+    modifies g_kind, g_exp, g_limited, g_limit, g_ta
+    call Approve requires who: grantee == ret(NewTransferAuthorization, 1, 0) && origin == old(origin) && transferAuthz == ret(NewTransferAuthorization, 1, 1) && authzKeeper == p.AuthzKeeper && channelKeeper == p.channelKeeper
+    call Approve requires untouched: g_kind == old(g_kind) && g_exp == old(g_exp) && g_limited == old(g_limited) && g_limit == old(g_limit) && g_ta == old(g_ta)
+    call Pack requires packs_true: len(args) == 1 && isdyn(args[0], bool) && dyn(args[0], bool)
+    ensures granted: result.1 == nil ==> len(args) == 2 && isdyn(args[0], Address) && g_kind == upd(old(g_kind), key, TransferTag()) && g_limited == old(g_limited) && g_limit == old(g_limit)
+            && g_exp[key] != nil && (forall k GKey :: k != key ==> g_exp[k] == old(g_exp)[k] && g_ta[k] == old(g_ta)[k])
+    // every allocation of the stored authorization names an existing channel, and there is at least one
+    ensures channels: result.1 == nil ==> len(g_ta[key].Allocations) > 0 && (forall j int :: 0 <= j && j < len(g_ta[key].Allocations)
+            ==> has_channel(p.channelKeeper, ctx, g_ta[key].Allocations[j].SourcePort, g_ta[key].Allocations[j].SourceChannel))
+    ensures refused: !(len(args) == 2 && isdyn(args[0], Address)) ==> result.1 != nil
+
+func (Precompile).Revoke
+    requires wf: method != nil && ctx_height(ctx) >= 0 && len(p.ABI.Events["IBCTransferAuthorization"].Inputs) == 3 && stateDB != nil
+    let key = gkey(addr_bytes(dyn(args[0], Address)), addr_bytes(origin), glob_ics20_TransferMsgURL)
+    let okargs = len(args) == 1 && isdyn(args[0], Address) && dyn(args[0], Address) != zero_EvmAddr
+    modifies g_kind
+    call Revoke requires who: grantee == ret(checkRevokeArgs, 1, 0) && origin == old(origin) && authzKeeper == p.AuthzKeeper && g_kind == old(g_kind)
+    call Pack requires packs_true: len(args) == 1 && isdyn(args[0], bool) && dyn(args[0], bool)
+    ensures revoked: result.1 == nil ==> okargs && old(GLive(g_kind, g_exp, key, ctx)) && old(g_kind)[key] == TransferTag() && g_kind == upd(old(g_kind), key, 0)
+    ensures refused: !okargs ==> result.1 != nil && g_kind == old(g_kind)
+    ensures no_grant: okargs && (!old(GLive(g_kind, g_exp, key, ctx)) || old(g_kind)[key] != TransferTag()) ==> result.1 != nil && g_kind == old(g_kind)
+
+func (Precompile).IncreaseAllowance
+    requires wf: method != nil && ctx_height(ctx) >= 0 && len(p.ABI.Events["IBCTransferAuthorization"].Inputs) == 3 && stateDB != nil
+    requires abi_uint: len(args) == 5 && isdyn(args[4], *BigInt) && dyn(args[4], *BigInt) != nil ==> 0 <= *dyn(args[4], *BigInt)
+    let key = gkey(addr_bytes(dyn(args[0], Address)), addr_bytes(origin), glob_ics20_TransferMsgURL)
+    let okargs = len(args) == 5 && isdyn(args[0], Address) && dyn(args[0], Address) != zero_EvmAddr && isdyn(args[1], string) && isdyn(args[2], string) && isdyn(args[3], string)
+             && isdyn(args[4], *BigInt) && dyn(args[4], *BigInt) != nil
+    let port = dyn(args[1], string)
+    let channel = dyn(args[2], string)
+    let denom = dyn(args[3], string)
+    let amt = old(*dyn(args[4], *BigInt))
+    let A = old(g_ta)[key].Allocations
+    let N = g_ta[key].Allocations
+    modifies g_kind, g_exp, g_limited, g_limit, g_ta
+    call IncreaseAllowance requires who: grantee == ret(checkAllowanceArgs, 1, 0) && granter == origin && authzKeeper == p.AuthzKeeper
+    call IncreaseAllowance requires what: sourcePort == ret(checkAllowanceArgs, 1, 1) && sourceChannel == ret(checkAllowanceArgs, 1, 2) && denom == ret(checkAllowanceArgs, 1, 3) && amount == ret(checkAllowanceArgs, 1, 4)
+    call IncreaseAllowance requires untouched: g_kind == old(g_kind) && g_exp == old(g_exp) && g_limited == old(g_limited) && g_limit == old(g_limit) && g_ta == old(g_ta)
+    call Pack requires packs_true: len(args) == 1 && isdyn(args[0], bool) && dyn(args[0], bool)
+    ensures decoded: result.1 == nil ==> okargs && old(GLive(g_kind, g_exp, key, ctx)) && old(g_kind)[key] == TransferTag()
+    ensures refused: !okargs ==> result.1 != nil && g_kind == old(g_kind) && g_exp == old(g_exp) && g_ta == old(g_ta) && g_limited == old(g_limited) && g_limit == old(g_limit)
+    ensures no_allocation: okargs && (forall j int :: 0 <= j && j < len(A) ==> !AllocFor(A[j], port, channel)) ==> result.1 != nil && g_kind == old(g_kind) && g_exp == old(g_exp) && g_ta == old(g_ta)
+            && g_limited == old(g_limited) && g_limit == old(g_limit)
+    ensures others: result.1 == nil ==> g_kind == old(g_kind) && g_exp == old(g_exp) && g_limited == old(g_limited) && g_limit == old(g_limit) && (forall k GKey :: k != key ==> g_ta[k] == old(g_ta)[k])
+    ensures shape: result.1 == nil ==> len(N) == len(A) && (forall i int :: 0 <= i && i < len(A) ==> N[i].SourcePort == A[i].SourcePort && N[i].SourceChannel == A[i].SourceChannel && N[i].AllowList == A[i].AllowList)
+    ensures other_allocations: result.1 == nil ==> (forall i int :: 0 <= i && i < len(A) && !(AllocFor(A[i], port, channel) && (forall j int :: 0 <= j && j < i ==> !AllocFor(A[j], port, channel)))
+            ==> N[i].SpendLimit == A[i].SpendLimit)
+    ensures raised: result.1 == nil ==> (forall i int :: 0 <= i && i < len(A) && AllocFor(A[i], port, channel) && (forall j int :: 0 <= j && j < i ==> !AllocFor(A[j], port, channel))
+            ==> A[i].SpendLimit[denom] != 0 && (forall d string :: N[i].SpendLimit[d] == A[i].SpendLimit[d] + ite(d == denom, amt, 0)))
+
+func (Precompile).DecreaseAllowance
+    requires wf: method != nil && ctx_height(ctx) >= 0 && len(p.ABI.Events["IBCTransferAuthorization"].Inputs) == 3 && stateDB != nil
+    requires abi_uint: len(args) == 5 && isdyn(args[4], *BigInt) && dyn(args[4], *BigInt) != nil ==> 0 <= *dyn(args[4], *BigInt)
+    let key = gkey(addr_bytes(dyn(args[0], Address)), addr_bytes(origin), glob_ics20_TransferMsgURL)
+    let okargs = len(args) == 5 && isdyn(args[0], Address) && dyn(args[0], Address) != zero_EvmAddr && isdyn(args[1], string) && isdyn(args[2], string) && isdyn(args[3], string)
+             && isdyn(args[4], *BigInt) && dyn(args[4], *BigInt) != nil
+    let port = dyn(args[1], string)
+    let channel = dyn(args[2], string)
+    let denom = dyn(args[3], string)
+    let amt = old(*dyn(args[4], *BigInt))
+    let A = old(g_ta)[key].Allocations
+    let N = g_ta[key].Allocations
+    modifies g_kind, g_exp, g_limited, g_limit, g_ta
+    call DecreaseAllowance requires who: grantee == ret(checkAllowanceArgs, 1, 0) && granter == origin && authzKeeper == p.AuthzKeeper
+    call DecreaseAllowance requires what: sourcePort == ret(checkAllowanceArgs, 1, 1) && sourceChannel == ret(checkAllowanceArgs, 1, 2) && denom == ret(checkAllowanceArgs, 1, 3) && amount == ret(checkAllowanceArgs, 1, 4)
+    call DecreaseAllowance requires untouched: g_kind == old(g_kind) && g_exp == old(g_exp) && g_limited == old(g_limited) && g_limit == old(g_limit) && g_ta == old(g_ta)
+    call Pack requires packs_true: len(args) == 1 && isdyn(args[0], bool) && dyn(args[0], bool)
+    ensures decoded: result.1 == nil ==> okargs && old(GLive(g_kind, g_exp, key, ctx)) && old(g_kind)[key] == TransferTag()
+    ensures refused: !okargs ==> result.1 != nil && g_kind == old(g_kind) && g_exp == old(g_exp) && g_ta == old(g_ta) && g_limited == old(g_limited) && g_limit == old(g_limit)
+    ensures no_allocation: okargs && (forall j int :: 0 <= j && j < len(A) ==> !AllocFor(A[j], port, channel)) ==> result.1 != nil && g_kind == old(g_kind) && g_exp == old(g_exp) && g_ta == old(g_ta)
+            && g_limited == old(g_limited) && g_limit == old(g_limit)
+    ensures too_big: okargs && (forall i int :: 0 <= i && i < len(A) && AllocFor(A[i], port, channel) && (forall j int :: 0 <= j && j < i ==> !AllocFor(A[j], port, channel)) ==> A[i].SpendLimit[denom] < amt)
+            ==> result.1 != nil && g_kind == old(g_kind) && g_exp == old(g_exp) && g_ta == old(g_ta) && g_limited == old(g_limited) && g_limit == old(g_limit)
+    ensures others: result.1 == nil ==> g_kind == old(g_kind) && g_exp == old(g_exp) && g_limited == old(g_limited) && g_limit == old(g_limit) && (forall k GKey :: k != key ==> g_ta[k] == old(g_ta)[k])
+    ensures shape: result.1 == nil ==> len(N) == len(A) && (forall i int :: 0 <= i && i < len(A) ==> N[i].SourcePort == A[i].SourcePort && N[i].SourceChannel == A[i].SourceChannel && N[i].AllowList == A[i].AllowList)
+    ensures other_allocations: result.1 == nil ==> (forall i int :: 0 <= i && i < len(A) && !(AllocFor(A[i], port, channel) && (forall j int :: 0 <= j && j < i ==> !AllocFor(A[j], port, channel)))
+            ==> N[i].SpendLimit == A[i].SpendLimit)
+    ensures lowered: result.1 == nil ==> (forall i int :: 0 <= i && i < len(A) && AllocFor(A[i], port, channel) && (forall j int :: 0 <= j && j < i ==> !AllocFor(A[j], port, channel))
+            ==> amt <= A[i].SpendLimit[denom] && (forall d string :: N[i].SpendLimit[d] == A[i].SpendLimit[d] - ite(d == denom, amt, 0)))
+    ensures exact: result.1 == nil ==> (forall i int :: 0 <= i && i < len(A) && AllocFor(A[i], port, channel) && (forall j int :: 0 <= j && j < i ==> !AllocFor(A[j], port, channel))
+            && amt == A[i].SpendLimit[denom] ==> N[i].SpendLimit[denom] == 0)
+@*/
